@@ -3,6 +3,6 @@ CONSTANTS
   Keys = {1, 2, 3}
   Vals = {0, 1}
   MaxLen = 4
-  Depth = 4
+  Depth = 5
 INVARIANT Laws
 CHECK_DEADLOCK FALSE
